@@ -951,11 +951,21 @@ class Stack(list):
         return True
 
     def op_pick(self):
-        self.append(self[-self.pop_as_number()])
+        if not self.is_arithmetic():
+            return False
+        n = self.pop_as_number()
+        if n < 0:
+            raise IndexError("list index out of range")
+        self.append(self[-n])
         return True
 
     def op_roll(self):
-        self.append(self.pop(-self.pop_as_number()))
+        if not self.is_arithmetic():
+            return False
+        n = self.pop_as_number()
+        if n < 0:
+            raise IndexError("pop index out of range")
+        self.append(self.pop(-n))
         return True
 
     def op_rot(self):
